@@ -1,2 +1,5 @@
 pub mod c09;
 pub mod c14;
+pub mod c06;
+pub mod c15;
+pub mod trees;
